@@ -36,8 +36,8 @@ std::basic_ostream<TSym, TTraits>& operator<<(std::basic_ostream<TSym, TTraits>&
 template <class TSym, class TTraits = std::char_traits<TSym>> \
 std::basic_istream<TSym, TTraits>& operator>>(std::basic_istream<TSym, TTraits>& stream, enumType& value) \
 { \
-	TSym sym; std::basic_string<TSym, TTraits> str; \
-	for (stream >> sym; !stream.eof() && !std::isspace(sym); sym = static_cast<TSym>(stream.get())) { \
+	TSym sym{}; std::basic_string<TSym, TTraits> str; \
+	for (stream >> sym; stream.good() && !std::isspace(sym); sym = static_cast<TSym>(stream.get())) { \
 		str.push_back(sym); } \
 	BitSerializer::Convert::Detail::To(std::basic_string_view<TSym>(str), value); \
 	return stream; \
